@@ -250,7 +250,11 @@ class World(BaseWorld):
     def gen_op(self, rng):
         c = self.cfg
         if self.H is None:
-            return {"op": "start", "terms": self.gen_poly_terms(rng, rng.randint(2, c["obj_vars"]), c["obj_deg"], rng.randint(1, 4), c["obj_coefs"], 0.4)}
+            terms = self.gen_poly_terms(rng, rng.randint(2, c["obj_vars"]), c["obj_deg"], rng.randint(1, 4), c["obj_coefs"], 0.4)
+            if c.get("big_offset"):
+                # an objective far from zero (still exact): values ~2^36 that differ by units, i.e. by < 1e-9 relatively
+                terms = [t for t in terms if t[0]] + [[[], c["big_offset"] + rng.choice([0, 1, -3])]]
+            return {"op": "start", "terms": terms}
         if self.nops >= c["n_ops"]:
             return None
         ncons = len(self.cons.items) + len(self.logic)
@@ -833,7 +837,7 @@ def gen_cfg(rng, prop, tier):
         "lams": rng.choice([[1], [0.5, 1, 1.5, 2, 3, 4], [2, 4], [0.5]]),
         "p_special": rng.choice([0.0, 0.3, 0.6]), "p_near_miss": rng.choice([0.0, 0.4, 0.7]), "p_skewed": rng.choice([0.0, 0.2, 0.5]), "p_model_arg": rng.choice([0.0, 0.3, 0.6]),
         "max_cons": rng.choice([1, 2, 3, 5]),
-        "w_logic": 0, "w_obj": rng.choice([0, 0.5, 1.5]), "w_hist": rng.choice([0, 0.5, 1.5]), "w_obs": rng.choice([0, 0.5]), "w_remap": rng.choice([0, 0, 0.5, 1.5]), "forms_first": rng.random() < 0.4,
+        "w_logic": 0, "w_obj": rng.choice([0, 0.5, 1.5]), "w_hist": rng.choice([0, 0.5, 1.5]), "w_obs": rng.choice([0, 0.5]), "w_remap": rng.choice([0, 0, 0.5, 1.5]), "forms_first": rng.random() < 0.4, "big_offset": rng.choice([0, 0, 0, 0, 0, 0, 2 ** 36, -(2 ** 36), 2 ** 34 + 1]),
         "n_ops": rng.choice([2, 4, 7, 12]),
         "half_bounds": tier == "thorough" or rng.random() < 0.3,
     }
